@@ -36,16 +36,45 @@ pub struct ThreadsResult {
 }
 
 /// run `n_evals` evaluations of the ruleset of `case` (env + rules) concurrently; inputs {a: 1 + id % 3}
+fn has_call(e: &J) -> bool {
+    if e["k"] == "call" {
+        return true;
+    }
+    e["a"].as_array().map(|a| a.iter().any(has_call)).unwrap_or(false) || e["kv"].as_array().map(|a| a.iter().any(|kv| has_call(&kv[1]))).unwrap_or(false)
+}
+
+/// the rules a mode evaluates: all of the case's; for `hammer` only those that call no function (as many truly parallel
+/// evaluations per second as possible); for `burst` two rules of 300 calls each (cacheable f, non-cacheable g)
+fn rules_for(case: &J, mode: &str) -> Result<(Vec<(String, Expr)>, J), String> {
+    match mode {
+        "hammer" => {
+            let keep: Vec<J> = case["rules"].as_array().ok_or("rules")?.iter().filter(|r| !has_call(&r["expr"])).cloned().collect();
+            let rules = keep.iter().map(|r| Ok((uncps(&r["name"])?, expr_from_model(&r["expr"])?))).collect::<Result<Vec<_>, String>>()?;
+            Ok((rules, J::Array(keep)))
+        }
+        "burst" => {
+            let mk = |f: &str| Expr::Vec((1..=300).map(|k| Expr::func(f, Expr::add(Expr::reff("a"), Expr::value(k as i128)))).collect());
+            let rules = vec![("b1".to_string(), mk("f")), ("b2".to_string(), mk("g")), ("b3".to_string(), Expr::func("f", Expr::add(Expr::reff("a"), Expr::value(1))))];
+            let j = J::Array(rules.iter().map(|(n, e)| json!({"name": cps(n), "expr": expr_to_model(e)})).collect());
+            Ok((rules, j))
+        }
+        _ => Ok((rules_of(case)?, case["rules"].clone())),
+    }
+}
+
 pub fn run_case(case: &J, n_threads: usize, n_evals: usize, mode: &str) -> Result<ThreadsResult, String> {
-    let built = build_ruleset(&case["env"], rules_of(case)?)?;
+    let (mode_rules, rules_j) = rules_for(case, mode)?;
+    let built = build_ruleset(&case["env"], mode_rules.clone())?;
     let rs = Arc::new(built.ruleset);
     let log = built.log.clone();
     // {a: 1 + id % 3, s: one of five timestamps}: 15 different inputs
     const DATES: [&str; 5] = ["1970-01-01T00:00:00Z", "2015-07-30T03:26:13Z", "2015-07-30T03:26:13.5+02:00", "1969-12-31T23:59:59.999999999Z", "2000-02-29T12:00:00-05:30"];
     const NI: usize = 15;
-    let input_of = |id: usize| Value::Map([("a".to_string(), Value::Int(1 + (id % 3) as i128)), ("s".to_string(), Value::String(DATES[id % 5].to_string()))].into_iter().collect());
+    // (burst: the 600-call rules read `a` only, so three inputs - the trace holds one record per distinct observation)
+    let burst = mode == "burst";
+    let input_of = move |id: usize| Value::Map([("a".to_string(), Value::Int(1 + (id % 3) as i128)), ("s".to_string(), Value::String(DATES[if burst { 0 } else { id % 5 }].to_string()))].into_iter().collect());
     // sequential reference (its own ruleset instance so that the log is separate)
-    let seq_built = build_ruleset(&case["env"], rules_of(case)?)?;
+    let seq_built = build_ruleset(&case["env"], mode_rules.clone())?;
     let mut reference = Vec::new();
     for id in 0..NI {
         let outs = block_on(seq_built.ruleset.evaluate_value(&input_of(id))).map_err(|p| format!("sequential run panicked: {p}"))?.map_err(|e| e.to_string())?;
@@ -92,6 +121,63 @@ pub fn run_case(case: &J, n_threads: usize, n_evals: usize, mode: &str) -> Resul
             });
             a.join().map_err(|_| "thread A panicked")?;
             results = b.join().map_err(|_| "thread B panicked")?;
+        }
+        "hammer" => {
+            // n_evals evaluations per thread, back to back, no suspension: only the comparison with the sequential run
+            let bad = std::sync::Mutex::new(Vec::new());
+            std::thread::scope(|sc| {
+                for t in 0..n_threads {
+                    let rs = rs.clone();
+                    let bad = &bad;
+                    let reference = &reference;
+                    sc.spawn(move || {
+                        for k in 0..n_evals {
+                            let id = 1 + t * n_evals + k;
+                            let input = input_of(id);
+                            let x = match block_on(rs.evaluate_value(&input)) {
+                                Ok(Ok(outs)) => outcomes_model(&outs),
+                                Ok(Err(e)) => json!({"whole_error": e.to_string()}),
+                                Err(p) => json!({"panic": p}),
+                            };
+                            if x != reference[id % NI] {
+                                bad.lock().unwrap().push((id, x));
+                                return;
+                            }
+                        }
+                    });
+                }
+            });
+            let bad = bad.into_inner().unwrap();
+            let mismatches = bad.iter().map(|(id, x)| json!({"why": format!("evaluation {id} (one of {} back-to-back evaluations on each of {n_threads} threads) differs from the sequential run", n_evals), "mode": mode, "concurrent": x, "sequential": reference[id % NI]})).collect();
+            return Ok(ThreadsResult { evaluations: n_threads * n_evals, records: Vec::new(), mismatches });
+        }
+        "burst" => {
+            // all threads start their evaluation at the same instant (barrier), n_evals rounds
+            let collected = std::sync::Mutex::new(Vec::new());
+            let barrier = std::sync::Barrier::new(n_threads);
+            std::thread::scope(|sc| {
+                for t in 0..n_threads {
+                    let rs = rs.clone();
+                    let collected = &collected;
+                    let barrier = &barrier;
+                    sc.spawn(move || {
+                        for k in 0..n_evals {
+                            let id = 1 + k * n_threads + t;
+                            let input = input_of(id);
+                            barrier.wait();
+                            let r = block_on(EV.scope(id, rs.evaluate_value(&input)));
+                            let x = match r {
+                                Ok(Ok(outs)) => outcomes_model(&outs),
+                                Ok(Err(e)) => json!({"whole_error": e.to_string()}),
+                                Err(p) => json!({"panic": p}),
+                            };
+                            collected.lock().unwrap().push((id, x));
+                        }
+                    });
+                }
+            });
+            results = collected.into_inner().unwrap();
+            results.sort_by_key(|r| r.0);
         }
         "tokio" | "tokio4" => {
             let n_threads = if mode == "tokio4" { 4 } else { n_threads };
@@ -158,7 +244,7 @@ pub fn run_case(case: &J, n_threads: usize, n_evals: usize, mode: &str) -> Resul
         if *x != reference[id % NI] {
             mismatches.push(json!({"why": format!("evaluation {id} returned outcomes that differ from the sequential run"), "mode": mode, "concurrent": x, "sequential": reference[id % NI]}));
         }
-        records.push(json!({"env": case["env"], "rules": case["rules"], "input": to_model(&input_of(*id)), "x": x, "calls": calls, "id": id, "mode": mode}));
+        records.push(json!({"env": case["env"], "rules": rules_j, "input": to_model(&input_of(*id)), "x": x, "calls": calls, "id": id, "mode": mode}));
     }
     let unattributed = entries.iter().filter(|e| e.ev == 0).count();
     if unattributed > 0 {
